@@ -20,6 +20,7 @@ sNeg == <<3, 6>>     \* -1
 s25 == <<7, 10>>     \* 25
 NoPlaces(rows) == [of |-> [r \in rows |-> {}], row |-> << >>, names |-> << >>]
 
+DZero == D(-1000)      \* the zero time.Time{}: a value like any other (earlier than every other instant), not null
 NoTags == [k |-> Nil, j |-> Nil, q |-> Nil]
 \* (tag values of type bool / datetime live under key q only: how such values compare under a *string* literal is not documented)
 Row(s, n, m, f, b, t, roles, boss, peers, tags) ==
@@ -30,7 +31,7 @@ D1 == [ name |-> "D1",
         names |-> [r1 |-> sA, r2 |-> <<18, 18>>, r3 |-> sAB, r4 |-> sB, r5 |-> sUA],
         row |-> [ r1 |-> Row(S(sA), N(1), N(1), F2(3), B(TRUE), D(1), {sA, sAB}, "", {"r2", "r3"}, [k |-> S(sA), j |-> N(1), q |-> B(TRUE)]),
                   r2 |-> Row(Nil, Nil, Nil, Nil, Nil, Nil, {}, "r1", {}, NoTags),
-                  r3 |-> Row(S(sE), N(0), N(0), F2(0), B(FALSE), D(0), {sB}, "r1", {"r3"}, [k |-> Nil, j |-> S(s1), q |-> D(1)]),
+                  r3 |-> Row(S(sE), N(0), N(0), F2(0), B(FALSE), DZero, {sB}, "r1", {"r3"}, [k |-> Nil, j |-> S(s1), q |-> D(1)]),
                   r4 |-> Row(S(sUAB), N(-1), N(-1), F2(-1), B(TRUE), D(2), {sB, sUA}, "r4", {"r1", "r4"}, [k |-> N(2), j |-> N(0), q |-> B(FALSE)]),
                   r5 |-> Row(S(s10), N(10), N(10), F2(4), B(FALSE), D(1), {sA}, "r3", {"r2"}, [k |-> F2(3), j |-> S(sA), q |-> D(2)]) ],
         \* places: q1 and q3 carry the same s as rows do (a sub-query evaluated against the wrong type would still find a value), q2 has none
@@ -158,6 +159,8 @@ SortSyms == {<<"s">>, <<"n">>, <<"m">>, <<"f">>, <<"b">>, <<"t">>, <<"id">>, <<"
 Sorts == {<< >>} \cup {<<[sym |-> a, asc |-> d]>> : a \in SortSyms, d \in BOOLEAN}
          \cup {<<[sym |-> a, asc |-> d], [sym |-> b, asc |-> e]>> : a \in {<<"s">>, <<"n">>, <<"b">>, <<"t">>}, b \in {<<"f">>, <<"m">>, <<"id">>, <<"s">>}, d \in BOOLEAN, e \in BOOLEAN}
          \cup {<<[sym |-> <<"b">>, asc |-> d], [sym |-> <<"n">>, asc |-> TRUE], [sym |-> <<"s">>, asc |-> FALSE], [sym |-> <<"t">>, asc |-> d], [sym |-> <<"f">>, asc |-> FALSE]>> : d \in BOOLEAN}
+         \cup {<<[sym |-> <<"id">>, asc |-> d], [sym |-> <<"s">>, asc |-> TRUE]>> : d \in BOOLEAN}
+         \cup {<<[sym |-> <<"s">>, asc |-> TRUE], [sym |-> <<"id">>, asc |-> FALSE], [sym |-> <<"n">>, asc |-> TRUE]>>}
 Skips == {NoVal, 0, 1, 2, 5, 7, -1, -3}
 Limits == {NoVal, NoneLimit, -1, 0, 1, 2, 5, 100}
 PagePreds == {TRUEF, A2, [k |-> "not", e |-> A2]}
@@ -175,6 +178,10 @@ MixQ == {Q([k |-> w, sym |-> sym, a |-> a]) : w \in {"atom", "anyOf", "allOf"}, 
         \cup {Q([k |-> "count", sym |-> sym, op |-> op, n |-> n]) : sym \in MixSyms, op \in {"eq", "lt"}, n \in {N(1), F2(3), S(sA), B(TRUE), D(1)}}
         \cup {Q([k |-> "isEmpty", sym |-> sym]) : sym \in MixSyms} \cup {Q([k |-> "boolsym", sym |-> sym]) : sym \in MixSyms}
         \cup {[p |-> TRUEF, sort |-> <<[sym |-> sym, asc |-> TRUE]>>, skip |-> NoVal, limit |-> NoVal] : sym \in MixSyms}
+        \* sub-queries over symbols that are no entity sets (scalars, string sets, maps, unknown names), also nested
+        \cup {Q([k |-> "isEmptyq", sym |-> sym, q |-> Q(p)]) : sym \in MixSyms, p \in {TRUEF, A1}}
+        \cup {Q([k |-> "countq", sym |-> sym, q |-> Q(TRUEF), op |-> "gt", n |-> N(0)]) : sym \in MixSyms}
+        \cup {Q([k |-> "isEmptyq", sym |-> <<"peers">>, q |-> Q([k |-> "isEmptyq", sym |-> sym, q |-> Q(TRUEF)])]) : sym \in MixSyms}
 
 SortSymQ == {[p |-> p, sort |-> so, skip |-> NoVal, limit |-> NoVal] : p \in PagePreds \cup {A1, A4}, so \in Sorts}
 
